@@ -213,6 +213,58 @@ func checkC04(e *Engine, r *Report) {
 						r.Check("R1:updates-used@"+site, "data-flow updates applied", "the updates map from "+name+" is applied in a loop", e.InstrPos(in), fn, true, "ranged over", true)
 						r.Check("R1:updates-pinned@"+site, "data-flow updates applied", "each updated container is told its new node mask (SetCpusetMems(entry.MemsetString()))", e.InstrPos(ranged), fn, pinned, "", true)
 						r.Check("R1:updates-addressed@"+site, "data-flow updates applied", "the container told is the one the update entry is keyed by", e.InstrPos(ranged), fn, keyed, "", true)
+						// no entry is skipped: from one iteration to the next every path passes the sink, unless the keyed
+						// container/grant is unknown, is memory-preserved, or memory pinning is disabled
+						if next != nil {
+							benign := func(cond ssa.Value) (bool, bool) {
+								if ex, ok := cond.(*ssa.Extract); ok && ex.Index == 0 && ex.Tuple == ssa.Value(next) {
+									return true, true // this iteration has an entry (leaving and re-entering the loop is not a skipped entry)
+								}
+								if ex, ok := cond.(*ssa.Extract); ok && ex.Index == 1 {
+									switch t := ex.Tuple.(type) {
+									case *ssa.Lookup:
+										if t.CommaOk {
+											return true, true
+										}
+									case *ssa.Call:
+										return true, true
+									}
+								}
+								if c, ok := cond.(*ssa.Call); ok && callObj(c.Common()) != nil && callObj(c.Common()).Name() == "PreserveMemoryResources" {
+									return true, false
+								}
+								if f, _ := loadedField(cond); f != nil && f.Name() == "PinMemory" {
+									return true, true
+								}
+								return false, false
+							}
+							sinks := []struct {
+								key, what string
+								is        func(ssa.Instruction) bool
+							}{{"pinned", "told its new node mask", func(x ssa.Instruction) bool {
+								if !isCallOfObj(x, setMems) {
+									return false
+								}
+								return isMemsetStringOf(callArgs(x.(ssa.CallInstruction))[1], isRangeVal)
+							}}}
+							if pkg == pkgTA {
+								sinks = append(sinks, struct {
+									key, what string
+									is        func(ssa.Instruction) bool
+								}{"recorded", "recorded in its grant", func(x ssa.Instruction) bool {
+									if !isCallOfObj(x, setZone) {
+										return false
+									}
+									a := callArgs(x.(ssa.CallInstruction))
+									return len(a) == 2 && isRangeVal(a[1])
+								}})
+							}
+							for _, sk := range sinks {
+								bp := FindPath(PathQuery{Fn: next.Parent(), From: next, Assume: benign, Block: sk.is, Target: func(x ssa.Instruction) bool { return x == ssa.Instruction(next) }})
+								r.Check("R1:updates-no-entry-skipped#"+sk.key+"@"+site, "data-flow updates applied", "no entry of the updates map is skipped: every known, not memory-preserved container in it is "+sk.what+" (with memory pinning enabled)", e.InstrPos(ranged), fn, bp == nil,
+									"an iteration can end without the call: "+e.pathString(bp), true)
+							}
+						}
 						if pkg == pkgTA {
 							r.Check("R1:updates-recorded@"+site, "data-flow updates applied", "the grant of each updated container records its new zone (SetMemoryZone(entry))", e.InstrPos(ranged), fn, recorded, "", true)
 						}
